@@ -288,12 +288,7 @@ def request_case(ctx, rng, k):
     else:
         names = ['me', 'users', 'echo', 'id', 'name', 'friends', 'User', 'Query', 'Filter', 'Role', 'ADMIN', 'best', 'pet', 'Dog', 'node', 'search',
                  'term', 'first', 'filter', 'req', 'i', 'o', 'l', 'Q', 'F', 'v', 'bump', 'by', 'setName']
-        old = src.NAMES
-        src.NAMES = names
-        try:
-            source = src.gen_source(rng, rng.choice(['exec', 'exec', 'document']), max_depth=3)
-        finally:
-            src.NAMES = old
+        source = src.gen_source(rng, rng.choice(['exec', 'exec', 'document']), max_depth=3, names=names)
         variables = {n: rng.choice(HOSTILE_VALUES) for n in rng.sample(names, 3)}
         origin = "G-src over schema vocabulary"
         if rng.random() < 0.3:
